@@ -423,6 +423,93 @@ def counting_whiles_to_for(func):
     return count
 
 
+def dict_dispatch_to_chain(func):
+    """`D = {k1: f1, ...}` (a local literal table of callables) used only as `D[key](args)` in statement position  ->
+    `if key == k1: f1(args) elif ... else: raise KeyError(key)`.  Same calls under the same conditions; the chain is the form in which
+    the per-state / per-type analyses can tell which callee runs for which key.  Returns the number of tables rewritten."""
+    count = 0
+    body_nodes = list(ast.walk(func))
+    defs = {}
+    for n in body_nodes:
+        if isinstance(n, ast.Assign) and len(n.targets) == 1 and isinstance(n.targets[0], ast.Name):
+            defs.setdefault(n.targets[0].id, []).append(n)
+    for name, ds in defs.items():
+        if len(ds) != 1 or not isinstance(ds[0].value, ast.Dict) or len(ds[0].value.keys) < 2:
+            continue
+        d = ds[0].value
+        if any(k is None for k in d.keys) or not all(isinstance(v, (ast.Attribute, ast.Name, ast.Lambda)) for v in d.values):
+            continue
+        uses = [n for n in body_nodes if isinstance(n, ast.Name) and n.id == name and isinstance(n.ctx, ast.Load)]
+        sites = []
+
+        def find(stmts):
+            for j, st in enumerate(stmts):
+                v = getattr(st, 'value', None) if isinstance(st, (ast.Expr, ast.Assign, ast.Return)) else None
+                if isinstance(v, ast.Call) and isinstance(v.func, ast.Subscript) and isinstance(v.func.value, ast.Name) \
+                        and v.func.value.id == name:
+                    sites.append((stmts, j, st, v))
+                for fld in ('body', 'orelse', 'finalbody'):
+                    sub = getattr(st, fld, None)
+                    if isinstance(sub, list) and not isinstance(st, (ast.FunctionDef, ast.AsyncFunctionDef, ast.ClassDef)):
+                        find(sub)
+                for h in getattr(st, 'handlers', []) or []:
+                    find(h.body)
+        find(func.body)
+        if not sites or len(sites) != len(uses):
+            continue
+        ok = True
+        for stmts, j, st, call in sites:
+            key = call.func.slice
+            if not isinstance(key, (ast.Name, ast.Attribute)) or any(isinstance(x, ast.Call) for x in ast.walk(key)):
+                ok = False
+            if any(isinstance(x, ast.Name) and x.id == name for a in list(call.args) + [k.value for k in call.keywords] for x in ast.walk(a)):
+                ok = False
+        if not ok:
+            continue
+        for stmts, j, st, call in sites:
+            key = call.func.slice
+            chain = None
+            for k, v in reversed(list(zip(d.keys, d.values))):
+                newcall = ast.Call(func=copy.deepcopy(v), args=copy.deepcopy(call.args), keywords=copy.deepcopy(call.keywords))
+                if isinstance(v, ast.Lambda) and not call.keywords and len(v.args.args) == len(call.args) and not v.args.vararg \
+                        and not v.args.kwarg and not v.args.kwonlyargs and not v.args.defaults:
+                    # (lambda a, b: body)(x, y) with plain names / attributes as arguments is body[a := x, b := y]
+                    if all(isinstance(a, (ast.Name, ast.Attribute, ast.Constant)) for a in call.args):
+                        newcall = _Subst({p.arg: a for p, a in zip(v.args.args, call.args)}, {}).visit(copy.deepcopy(v.body))
+                new_st = copy.deepcopy(st)
+                new_st.value = newcall
+                test = ast.Compare(left=copy.deepcopy(key), ops=[ast.Eq()], comparators=[copy.deepcopy(k)])
+                if chain is None:
+                    other = [ast.Raise(exc=ast.Call(func=ast.Name(id='KeyError', ctx=ast.Load()), args=[copy.deepcopy(key)], keywords=[]),
+                                       cause=None)]
+                else:
+                    other = [chain]
+                chain = ast.If(test=test, body=[new_st], orelse=other)
+            ast.copy_location(chain, st)
+            ast.fix_missing_locations(chain)
+            stmts[j] = chain
+        # the table itself is not needed any more
+
+        def drop(stmts):
+            for j, st in enumerate(list(stmts)):
+                if st is ds[0]:
+                    stmts.remove(st)
+                    if not stmts:
+                        stmts.append(ast.Pass())
+                    return True
+                for fld in ('body', 'orelse', 'finalbody'):
+                    sub = getattr(st, fld, None)
+                    if isinstance(sub, list) and not isinstance(st, (ast.FunctionDef, ast.AsyncFunctionDef, ast.ClassDef)) and drop(sub):
+                        return True
+                for h in getattr(st, 'handlers', []) or []:
+                    if drop(h.body):
+                        return True
+            return False
+        drop(func.body)
+        count += 1
+    return count
+
+
 class Unsupported(Exception):
     pass
 
@@ -1274,6 +1361,12 @@ class Inliner:
         self.report['recovered_parameters'] = recover_parameter_renames(prog, tbl)
         if self.report['recovered_parameters']:
             prog.reindex()
+        self.report['dispatch_tables'] = {}
+        for q, fi in prog.functions.items():
+            if isinstance(fi.node, ast.FunctionDef):
+                k = dict_dispatch_to_chain(fi.node)
+                if k:
+                    self.report['dispatch_tables'][q] = k
         self.report['inlined_constants'] = inline_new_constants(prog, known_constants())
         if self.report['inlined_constants']:
             prog.reindex()
